@@ -78,7 +78,9 @@ func (m *M) Guard(f func() ([]goatlang.Value, error)) (res Result) {
 		if p := recover(); p != nil {
 			res.HostPanic = p
 		}
-		res.Out = m.Out.String()[start:]
+		if m.Out.Len() > start {
+			res.Out = m.Out.String()[start:]
+		}
 		if res.Err != nil && strings.Contains(res.Err.Error(), goatlang.VerifBudgetMsg) {
 			res.Budget = true
 		}
